@@ -27,8 +27,8 @@ EXTENDS UrwidScreenCore, Json, IOUtils
 
 Traces == JsonDeserialize(IOEnv.TRACE_FILE)
 
-VARIABLES tid, l, T, cv, nxt, free, taint, topimg, verdict, mech, kinds, stats
-vars == <<tid, l, T, cv, nxt, free, taint, topimg, verdict, mech, kinds, stats>>
+VARIABLES tid, l, T, cv, nxt, free, taint, topw, skipm, disc, verdict, mech, kinds, stats
+vars == <<tid, l, T, cv, nxt, free, taint, topw, skipm, disc, verdict, mech, kinds, stats>>
 
 Tr == Traces[tid]
 Ev == Tr.events
@@ -76,9 +76,14 @@ Aliased(gone) == \E w \in {v.w : v \in gone} : Cardinality({v \in gone : v.w = w
 \* Every step is a pure function of the state and the event: it returns the next values and
 \* the property-level (pv) and mechanism-level (mv) verdicts of this event.
 
-Res(T1, cv1, nxt1, free1, taint1, topimg1, pv, mv, st) ==
-  [T |-> T1, cv |-> cv1, nxt |-> nxt1, free |-> free1, taint |-> taint1, topimg |-> topimg1,
-   pv |-> pv, mv |-> mv, st |-> st]
+\* topw:  widgets that were drawn as a bare top-level image canvas (a ghost of one of those is
+\*        attributed to that situation);  skipm: the canvas drawn last was such a canvas, the
+\*        bookkeeping of the next redraw is not comparable;  disc: the discrepancies (ghost / missing
+\*        placements) already present after the previous redraw - only NEW ones are reported
+Res(T1, cv1, nxt1, free1, taint1, topw1, skipm1, disc1, pv, mv, st) ==
+  [T |-> T1, cv |-> cv1, nxt |-> nxt1, free |-> free1, taint |-> taint1, topw |-> topw1, skipm |-> skipm1,
+   disc |-> disc1, pv |-> pv, mv |-> mv, st |-> st]
+NoDisc == [g |-> {}, m |-> {}]
 
 RedrawStep(e, free0) ==
   LET bad == e.op = "bad"
@@ -95,6 +100,9 @@ RedrawStep(e, free0) ==
       implied == ImpliedBy(Id, wd, P)
       shown == Shown(T1, Gfx)
       judged == ~bad /\ ~taint
+      newg == (shown \ implied) \ disc.g
+      newm == (implied \ shown) \ disc.m
+      leafimg == TopLeaf(e.lay) /\ e.lay.k = "img"
       fullT == Fold(NewTerminal(Tr.cols, Tr.rows, 0, 0), e.full, Gfx, 1)
       leafy == TopLeaf(e.lay)
       pv == IF ~wf THEN V("bad-layout", "", 0)
@@ -107,17 +115,18 @@ RedrawStep(e, free0) ==
             ELSE IF ~Supported(Id) /\ ~NoGraphics(e.toks) THEN V("graphics-unsupported", "", 0)
             ELSE IF judged /\ e.full # <<>> /\ (fullT.err # "" \/ Shown(fullT, Gfx) # implied)
                    THEN V("oracle-mismatch", fullT.err, Cardinality(implied))
-            ELSE IF judged /\ shown \ implied # {}
-                   THEN [V("ghost", ToJson(shown \ implied), Cardinality(shown \ implied)) EXCEPT !.alias = Aliased(gone)]
-            ELSE IF judged /\ implied \ shown # {}
-                   THEN [V("missing", ToJson(implied \ shown), Cardinality(implied \ shown)) EXCEPT !.alias = Aliased(gone)]
+            ELSE IF judged /\ newg # {}
+                   THEN [V("ghost", ToJson(newg), Cardinality(newg)) EXCEPT
+                           !.alias = Aliased(gone), !.topimg = \A x \in newg : x.wid \in topw]
+            ELSE IF judged /\ newm # {}
+                   THEN [V("missing", ToJson(newm), Cardinality(newm)) EXCEPT !.alias = Aliased(gone)]
             ELSE OK
       \* mechanism level: compared only for composite canvases (the treatment of a bare leaf canvas
       \* is judged by its effect on the terminal alone)
       affected == IF d.delall
                     THEN {w \in DOMAIN wd : wd[w].alive /\ Tracked(Id, wd[w].style) /\ w \in DOMAIN PrevDis.w}
                     ELSE {w \in d.delw : wd[w].alive}
-      mv == IF leafy \/ topimg \/ pv.v \in {"bad-layout", "exception", "terminal-error"} THEN OK
+      mv == IF leafy \/ skipm \/ samecanvas \/ pv.v \in {"bad-layout", "exception", "terminal-error"} THEN OK
             ELSE IF RealViews(e) # Plain(cv1) THEN V("cviews-mismatch", ToJson(Plain(cv1)), 0)
             ELSE IF HasDeleteAll(e.toks, Gfx) # d.delall
                     \/ (~d.delall /\ DeletedZ(e.toks, Gfx) # {wd[w].z : w \in d.delw})
@@ -129,7 +138,10 @@ RedrawStep(e, free0) ==
                           !.deletes = @ + (IF d.delall \/ d.delw # {} THEN 1 ELSE 0),
                           !.toks = @ + Len(e.toks)]
   IN Res(T1, IF pv.v \in {"bad-layout", "exception"} THEN cv ELSE cv1, nxt, free0, taint \/ bad,
-         topimg \/ (leafy /\ e.lay.k = "img"), pv, mv, st)
+         IF leafimg THEN topw \cup {e.lay.wid} ELSE topw,
+         IF samecanvas THEN skipm ELSE leafimg,
+         IF judged THEN [g |-> shown \ implied, m |-> implied \ shown] ELSE disc,
+         pv, mv, st)
 
 ClearStep(e, free0) ==
   LET T1 == Fold(T, e.toks, Gfx, 1)
@@ -139,7 +151,7 @@ ClearStep(e, free0) ==
             ELSE IF Supported(Id) /\ T1.pl # <<>> THEN V("not-cleared", e.op, Len(T1.pl))
             ELSE IF ~Supported(Id) /\ ~NoGraphics(e.toks) THEN V("graphics-unsupported", e.op, 0)
             ELSE OK
-  IN Res(T1, cv, nxt, free0, IF e.op \in {"stop", "clear"} THEN FALSE ELSE taint, topimg, pv, OK,
+  IN Res(T1, cv, nxt, free0, IF e.op \in {"stop", "clear"} THEN FALSE ELSE taint, topw, skipm, NoDisc, pv, OK,
          [stats EXCEPT !.clears = @ + 1, !.toks = @ + Len(e.toks)])
 
 \* widget created (e.w = its id, 0 if the constructor raised), dropped or invalidated
@@ -156,7 +168,7 @@ WidgetStep(e, free0) ==
             ELSE IF kitty /\ e.exc = "" /\ outs = {} THEN V("alloc-no-exhaustion-error", "", 0)
             ELSE IF kitty /\ e.exc = "" /\ match = {} THEN V("alloc-unexpected-index", "", 0)
             ELSE OK
-  IN Res(T, cv, o.next, o.free, taint, topimg, pv, OK, [stats EXCEPT !.wops = @ + 1])
+  IN Res(T, cv, o.next, o.free, taint, topw, skipm, disc, pv, OK, [stats EXCEPT !.wops = @ + 1])
 
 \* clauses evaluated after EVERY event on what the process holds afterwards
 AfterClause(e, r) ==
@@ -169,7 +181,7 @@ AfterClause(e, r) ==
 
 FatalClauses == {"exception", "bad-layout", "terminal-error", "oracle-mismatch", "unexpected-output"}
 Fatal(x) == x.v \in FatalClauses
-Kind(x, ti) == [v |-> x.v, alias |-> x.alias, topimg |-> ti, ctx |-> x.ctx,
+Kind(x) == [v |-> x.v, alias |-> x.alias, topimg |-> x.topimg, ctx |-> x.ctx,
                 info |-> IF x.v \in {"exception", "terminal-error", "no-delete-all", "not-cleared"} THEN x.info ELSE ""]
 
 Init ==
@@ -178,7 +190,7 @@ Init ==
   /\ T = NewTerminal(Traces[tid].cols, Traces[tid].rows, 0, 0)
   /\ cv = {}
   /\ nxt = Traces[tid].next0 /\ free = {}
-  /\ taint = FALSE /\ topimg = FALSE
+  /\ taint = FALSE /\ topw = {} /\ skipm = FALSE /\ disc = NoDisc
   /\ verdict = OK /\ mech = OK /\ kinds = {}
   /\ stats = [redraws |-> 0, implied |-> 0, deletes |-> 0, clears |-> 0, wops |-> 0, toks |-> 0]
 
@@ -195,12 +207,12 @@ Consume ==
   /\ \E r \in {StepOf(Ev[l + 1])} :
        \E pv \in {IF r.pv.v # "ok" THEN r.pv ELSE AfterClause(Ev[l + 1], r)} :
         /\ T' = r.T /\ cv' = r.cv /\ nxt' = r.nxt /\ free' = r.free
-        /\ taint' = r.taint /\ topimg' = r.topimg /\ stats' = r.st
-        /\ verdict' = IF verdict.v # "ok" THEN verdict ELSE [pv EXCEPT !.topimg = r.topimg]
-        /\ mech' = IF mech.v # "ok" \/ Fatal(verdict) THEN mech ELSE [r.mv EXCEPT !.topimg = r.topimg]
+        /\ taint' = r.taint /\ topw' = r.topw /\ skipm' = r.skipm /\ disc' = r.disc /\ stats' = r.st
+        /\ verdict' = IF verdict.v # "ok" THEN verdict ELSE pv
+        /\ mech' = IF mech.v # "ok" \/ Fatal(verdict) THEN mech ELSE r.mv
         \* every distinct kind of failure of the history, until a fatal one makes the rest meaningless
         /\ kinds' = IF Fatal(verdict) THEN kinds
-                     ELSE kinds \cup {Kind(x, r.topimg) : x \in {y \in {pv, r.mv} : y.v # "ok"}}
+                     ELSE kinds \cup {Kind(x) : x \in {y \in {pv, r.mv} : y.v # "ok"}}
   /\ UNCHANGED tid
 
 Next == Consume
